@@ -497,6 +497,10 @@ def stepSil (cfg : Cfg) (σ : Inst) (op obs : List String) : Option (Inst × Lis
   | "imutes" :: _ => stepImutes cfg σ op obs
   -- a Mutes call whose context is already cancelled (client gone, flush deadline passed): Silences.Query does not
   -- consult the context, the call is an ordinary one
+  -- the real Maintenance loop: a tick / the shutdown run is a GC (plus a snapshot file); the next start loads that file
+  | ["mtick", now] => (stepCommon cfg σ ["gc", now] obs).map fun (σ', m) => (σ', m ++ [.tag "maintenance:tick"])
+  | ["mstop", now] => (stepCommon cfg σ ["gc", now] obs).map fun (σ', m) => (σ', m ++ [.tag "maintenance:shutdown"])
+  | ["mload"] => (stepCommon cfg σ ["reload"] obs).map fun (σ', m) => (σ', m ++ [.tag "maintenance:start-from-file"])
   | "cmutes" :: rest => (stepCommon cfg σ ("mutes" :: rest) obs).map fun (σ', m) => (σ', m ++ [.tag "mutes:cancelled-context"])
   | _ => stepCommon cfg σ op obs
 
